@@ -480,7 +480,8 @@ fn object(p: &mut Parser) -> CompletedMarker {
 			if plus {
 				p.bump();
 			}
-			let params = if p.at(T!['(']) {
+			// `f+(..): ..` is not a method
+			let params = if !plus && p.at(T!['(']) {
 				params_desc(p);
 				visibility(p);
 				expr(p);
